@@ -282,7 +282,7 @@ func checkC06(p *Program, r *Report) {
 		checkCarry(p, r, m)
 	}
 	checkDelegatedStates(p, r, models)
-	checkRunLengthIndependence(p, r, models)
+	checkRunLengthIndependence(p, r, models, "R06.6", true)
 	checkBufferRefill(p, r, models)
 	r.Floor("R06.1", "stateful kernels", nStateful, 17)
 	r.Floor("R06.3", "wrappers", nWrap, 41)
@@ -1272,12 +1272,12 @@ func checkDelegatedStates(p *Program, r *Report, models []*Model) {
 // reach — as data or as a branch/loop condition — anything computed inside the time loop that influences outputs
 // or returned states: a split run has other lengths, so such a step would differ between the split and the unsplit
 // run.
-func checkRunLengthIndependence(p *Program, r *Report, models []*Model) {
-	r.Rule("R06.6", "run-length independence: within the body of a kernel's time loop no value that influences outputs or returned states is derived from the length of an input/output series (other than the loop's own `t < n` condition and buffer allocation sizes); what a timestep does cannot depend on how many timesteps the call was given")
+func checkRunLengthIndependence(p *Program, r *Report, models []*Model, rule string, statefulOnly bool) {
+	r.Rule(rule, "run-length independence: within the body of a kernel's time loop no value that influences outputs or returned states is derived from the length of an input/output series (other than the loop's own `t < n` condition and buffer allocation sizes); what a timestep does cannot depend on how many timesteps the call was given")
 	n := 0
 	for _, m := range models {
 		k := m.Kernel
-		if k == nil || len(m.States) == 0 {
+		if k == nil || statefulOnly && len(m.States) == 0 {
 			continue
 		}
 		loops := timeLoops(k)
@@ -1392,15 +1392,15 @@ func checkRunLengthIndependence(p *Program, r *Report, models []*Model) {
 					}
 					ord++
 					bad = true
-					r.Fail("R06.6", fmt.Sprintf("%s:length-dependent#%d", key, ord), p.Pos(ins.Pos()), fmt.Sprintf("inside the time loop of %s a value that influences outputs or states is derived from the series length (%s at %s): the same timestep is computed differently in a shorter call, so a split run cannot reproduce the unsplit one", k.Name(), src.Name(), p.Pos(src.Pos())))
+					r.Fail(rule, fmt.Sprintf("%s:length-dependent#%d", key, ord), p.Pos(ins.Pos()), fmt.Sprintf("inside the time loop of %s a value that influences outputs or states is derived from the series length (%s at %s): the same timestep is computed differently in a shorter call, so a split run cannot reproduce the unsplit one", k.Name(), src.Name(), p.Pos(src.Pos())))
 				}
 			}
 		}
 		if !bad {
-			r.OK("R06.6", key+": nothing inside a timestep depends on the length of the run")
+			r.OK(rule, key+": nothing inside a timestep depends on the length of the run")
 		}
 	}
-	r.Floor("R06.6", "stateful kernels with one time loop", n, 8)
+	r.Floor(rule, "kernels with one time loop", n, 8)
 }
 
 
